@@ -592,6 +592,41 @@ theorem free_surface_basis_correct (V : M3 K) (hdet : 0 < M3.det V) (hkl : IV) (
 
 end headline
 
+/-! ### the vectors in conventional indices (`FreeSurface.uvws`) -/
+
+/-- `FreeSurface.uvws` (the vectors re-expressed in the conventional cell, `vector_primitive_to_conventional`):
+    the zone-law expression in those — possibly fractional — indices is the integer one divided by `det L`. -/
+theorem zone_conventional (hkl : IV) (L : M3 Int) (hL : M3.det L ≠ 0) (u : IV) :
+    (hkl.x : ℚ) * (p2cRat L u).x + (hkl.y : ℚ) * (p2cRat L u).y + (hkl.z : ℚ) * (p2cRat L u).z
+      = ((V3.dot hkl (M3.vecMul u (adj L)) : ℤ) : ℚ) / ((M3.det L : ℤ) : ℚ) ∧
+    ((hkl.x : ℚ) * (p2cRat L u).x + (hkl.y : ℚ) * (p2cRat L u).y + (hkl.z : ℚ) * (p2cRat L u).z = 0
+      ↔ V3.dot hkl (M3.vecMul u (adj L)) = 0) := by
+  have hd : ((M3.det L : ℤ) : ℚ) ≠ 0 := by exact_mod_cast hL
+  have e : (hkl.x : ℚ) * (p2cRat L u).x + (hkl.y : ℚ) * (p2cRat L u).y + (hkl.z : ℚ) * (p2cRat L u).z
+      = ((V3.dot hkl (M3.vecMul u (adj L)) : ℤ) : ℚ) / ((M3.det L : ℤ) : ℚ) := by
+    simp only [p2cRat, V3.dot]
+    push_cast
+    field_simp
+  refine ⟨e, ?_⟩
+  rw [e, div_eq_zero_iff]
+  constructor
+  · rintro (h | h)
+    · exact_mod_cast h
+    · exact absurd h hd
+  · intro h; left; exact_mod_cast h
+
+/-- the conventional indices times the centring matrix give back the primitive ones: `p2c(u)·L = u`. -/
+theorem p2c_c2p (L : M3 Int) (hL : M3.det L ≠ 0) (u : IV) :
+    M3.vecMul (p2cRat L u) (⟨⟨L.r0.x, L.r0.y, L.r0.z⟩, ⟨L.r1.x, L.r1.y, L.r1.z⟩, ⟨L.r2.x, L.r2.y, L.r2.z⟩⟩ : M3 ℚ)
+      = ⟨(u.x : ℚ), (u.y : ℚ), (u.z : ℚ)⟩ := by
+  have hd : ((M3.det L : ℤ) : ℚ) ≠ 0 := by exact_mod_cast hL
+  obtain ⟨⟨a, b, c⟩, ⟨d, e, f⟩, ⟨g, h, i⟩⟩ := L
+  simp only [p2cRat, M3.vecMul, adj, M3.transpose, V3.cross, M3.det, V3.dot, V3.mk.injEq] at hd ⊢
+  push_cast at hd ⊢
+  generalize hD : (a : ℚ) * ((e : ℚ) * i - f * h) + b * (f * g - d * i) + c * (d * h - e * g) = D at hd ⊢
+  refine ⟨?_, ?_, ?_⟩ <;> field_simp <;> rw [← hD] <;> ring
+
+
 /-! ### Miller-Bravais input / output -/
 
 /-- `plane4to3` accepts exactly `h + k + i = 0` and drops `i`. -/
